@@ -240,6 +240,11 @@ def rule_tasks(ctx):
                     if isinstance(u, ast.Call) and isinstance(u.func, ast.Attribute) and u.func.attr in ("add", "append") and u.args and isinstance(u.args[0], ast.Name) and u.args[0].id == t:
                         owner = "added"
                         var = src(u.func.value)
+                    if isinstance(u, (ast.List, ast.Set)) and any(isinstance(x, ast.Name) and x.id == t for x in u.elts):
+                        st_ = p.enclosing_stmt(u)
+                        if isinstance(st_, ast.Assign) and isinstance(st_.targets[0], ast.Name):
+                            owner = "list-display"
+                            var = st_.targets[0].id
             verdict, why = False, "task is neither owned by the session nor awaited"
             if owner is not None and var is not None:
                 base = var.split(".")[-1]
